@@ -628,6 +628,10 @@ class MADStdBackgroundRMS(BackgroundRMSBase):
         # ignore RuntimeWarning where axis is all NaN
         with warnings.catch_warnings():
             warnings.simplefilter('ignore', RuntimeWarning)
+            if isinstance(axis, tuple):
+                # astropy's mad_std does not accept negative entries
+                # in a tuple axis for float64 input
+                axis = tuple(int(i) % np.ndim(data) for i in axis)
             result = mad_std(data, axis=axis, ignore_nan=True)
 
         if masked and isinstance(result, np.ndarray):
